@@ -23,10 +23,16 @@ PROP = {
 }
 
 TEXT = {
-    "text": "No Lean theorem yet for this property (modules = []): correspondence on every representation of every case plus the "
-            "oracle that all representations of one logical environment render identically on the real engine.",
-    "design_ref": "DESIGN.md 6 C18",
-    "note": NOTE + "Needs fixes/drops-in-arrays.patch and fixes/array-nil-element.patch in /repo; the cases that depend on the second "
-                   "are withheld from the model until Liquid/Convert.lean follows it (harness/stream_reps.go modelFollowsArrayNilPatch).",
-    "technique": "model/implementation correspondence + metamorphic oracle over Go representations",
+    "text": ('Theorems over the Go-representation value type: a drop behaves as the value it yields for lookup, truth, index, '
+              'printing and iteration (drop_*), a pointer as its pointee (ptr_unwrap_*, nilptr_unwrap), typed slices and fixed '
+              'arrays as generic slices for index, properties, loops and printing, typed string-keyed maps as generic maps, '
+              'MapSlice lookup and size as a map, []byte prints as its text, integers of every width print and test alike (with '
+              'C09 equal_num / less_num for comparison). Tie: the `reps` stream renders every template with every Go '
+              'representation of one logical environment on the model and on the real engine and requires all representations to '
+              'render identically on the real engine.'),
+    "design_ref": 'DESIGN.md 6 C18',
+    "note": NOTE + ('Stated per construct rather than as one whole-template theorem (`run` respects representation equivalence): '
+              'partial in that sense.'),
+    "technique": ('Lean 4 proof (case analysis on the value representation) + model/implementation correspondence + metamorphic '
+              'oracle over Go representations'),
 }
